@@ -92,6 +92,8 @@ func verdictsOf(d *document.DocumentEx) verdicts {
 	return v
 }
 
+var dbgPanic bool
+
 // verifyBlob runs the offline verifier with panic and allocation monitors.
 func verifyBlob(out *core.Outcome, w *world.World, blob []byte, aaChal []byte, what string) (*document.DocumentEx, error, bool) {
 	var d *document.DocumentEx
@@ -100,7 +102,12 @@ func verifyBlob(out *core.Outcome, w *world.World, blob []byte, aaChal []byte, w
 	var m0, m1 runtime.MemStats
 	runtime.ReadMemStats(&m0)
 	func() {
-		defer func() { pan = recover() }()
+		defer func() {
+			if dbgPanic {
+				return
+			}
+			pan = recover()
+		}()
 		v := verifier.NewVerifier(w.Pool)
 		if aaChal != nil {
 			if _, e := v.WithAAChallenge(aaChal); e != nil {
@@ -214,6 +221,9 @@ func (StoreVerifyEngine) Gen(prop, tier string, seed uint64, yield func(c any) b
 	n := 700
 	if tier == "thorough" {
 		n = 30000
+	}
+	if prop != "C14" {
+		n /= 4 // secondary role (offline path for C01, crash monitors for C12)
 	}
 	rng := core.NewRng(core.SubSeed(seed, "store-verify", tier))
 	for i := 0; i < n; i++ {
@@ -541,6 +551,31 @@ func (StoreVerifyEngine) Run(prop string, ci any) *core.Outcome {
 			}
 		}
 	}
+	// files withheld by the store while their evidence is kept
+	for _, dk := range []struct{ file, mech string }{{"dg14", "CA"}, {"dg15", "AA"}, {"cardSecurity", "CAM"}, {"sod", "PA"}, {"dg1", "PA"}} {
+		if _, ok := files[dk.file]; !ok {
+			continue
+		}
+		files2 := map[string][]byte{}
+		for kk, vv := range files {
+			if kk != dk.file {
+				files2[kk] = vv
+			}
+		}
+		out.Fault("withheld_file")
+		d, e, pan := verifyBlob(out, r.W, store.EncodeVerifiable(files2, ev), nil, "withheld "+dk.file)
+		if pan {
+			out.Violate("C14", "panic-on-withheld-file", dk.file, "verifier.Verify panicked on a blob without %s", dk.file)
+			continue
+		}
+		if e != nil || d == nil {
+			continue
+		}
+		v := verdictsOf(d)
+		if (dk.mech == "CA" && v.CA && live.CA) || (dk.mech == "AA" && v.AA && live.AA) || (dk.mech == "CAM" && v.CAM && live.CAM) || (dk.mech == "PA" && v.Trusted) {
+			out.Violate("C14", "verdict-without-file", dk.file, "%s removed from the stored document and the %s verdict is still successful", dk.file, dk.mech)
+		}
+	}
 	if sod, ok := files["sod"]; ok && live.PA {
 		for _, region := range []string{"eContent", "signedAttrs", "dsTBS"} {
 			rg, ok := r.W.SOD.Regions[region]
@@ -658,6 +693,9 @@ func (StoreCorruptEngine) Gen(prop, tier string, seed uint64, yield func(c any) 
 	n := 48
 	if tier == "thorough" {
 		n = 1600
+	}
+	if prop != "C15" {
+		n /= 3
 	}
 	rng := core.NewRng(core.SubSeed(seed, "store-corrupt", tier))
 	for i := 0; i < n; i++ {
